@@ -357,3 +357,28 @@ def sized_headers(base, target, never_indexed=True):
     res = wrap(res)
     _SIZED_CACHE[key] = res
     return res
+
+
+def stream_flow_projection(conn):
+    """The stream-and-flow part of a connection's state (read-only look at
+    internals, as DESIGN.md section 1 allows for 'a PRIORITY frame changes no
+    state'): stream table with each stream's state, closed-stream memory, both
+    id watermarks, every window, connection state, buffered input."""
+    streams = []
+    for sid in sorted(conn.streams):
+        s = conn.streams[sid]
+        sm = s.state_machine
+        streams.append((sid, sm.state.name, str(sm.stream_closed_by), sm.client,
+                        sm.headers_sent, sm.trailers_sent, sm.headers_received,
+                        sm.trailers_received, s.outbound_flow_control_window,
+                        s.inbound_flow_control_window,
+                        s._inbound_window_manager.max_window_size,
+                        s._inbound_window_manager._bytes_processed))
+    return (conn.state_machine.state.name, tuple(streams),
+            tuple((k, str(v)) for k, v in conn._closed_streams.items()),
+            conn.highest_inbound_stream_id, conn.highest_outbound_stream_id,
+            conn.outbound_flow_control_window, conn.inbound_flow_control_window,
+            conn._inbound_flow_control_window_manager.max_window_size,
+            conn._inbound_flow_control_window_manager._bytes_processed,
+            bytes(conn.incoming_buffer.data), len(conn.incoming_buffer._headers_buffer),
+            bytes(conn._data_to_send))
